@@ -123,6 +123,51 @@ def pageMove (op : Opts) (s : TS) (up half : Bool) : TS :=
   let dir := if op.layout != .default then -dir else dir
   vset s (s.cy + dir * lines)
 
+/-- `constrain()` in single-line mode: clamp the cursor, then keep it inside the window with the
+    scroll-off margin. -/
+def constrain (op : Opts) (s : TS) : TS :=
+  let count : Int := s.results.length
+  let maxLines : Int := op.maxItems
+  let cy := constrainInt s.cy 0 (max 0 (count - 1))
+  let offset0 := constrainInt s.offset 0 count
+  let step (offset : Int) : Int :=
+    let minOffset := max (cy - maxLines + 1) 0
+    let maxOffset := max (min (count - maxLines) cy) 0
+    let offset := constrainInt offset minOffset maxOffset
+    if op.scrollOff > 0 then
+      let so : Int := min (maxLines / 2) op.scrollOff
+      -- phase 0: move the window up while too few lines are shown before the cursor
+      let rec phase0 (o : Int) (fuel : Nat) : Int :=
+        match fuel with
+        | 0 => o
+        | fuel + 1 =>
+          let before := cy - o
+          let after := maxLines - (before + 1)
+          if before < so ∧ after < so then o
+          else if before < so then
+            let o' := max minOffset (o - 1)
+            if o' = o then o else phase0 o' fuel
+          else o
+      let rec phase1 (o : Int) (fuel : Nat) : Int :=
+        match fuel with
+        | 0 => o
+        | fuel + 1 =>
+          let before := cy - o
+          let after := maxLines - (before + 1)
+          if before < so ∧ after < so then o
+          else if after < so then
+            let o' := min maxOffset (o + 1)
+            if o' = o then o else phase1 o' fuel
+          else o
+      phase1 (phase0 offset (op.maxItems + 1)) (op.maxItems + 1)
+    else offset
+  let rec iter (offset : Int) (fuel : Nat) : Int :=
+    match fuel with
+    | 0 => offset
+    | fuel + 1 => let o' := step offset; if o' = offset then offset else iter o' fuel
+  -- the Go loop runs at most maxLines times and compares with the offset before the iteration
+  { s with cy := cy, offset := if op.maxItems = 0 then offset0 else iter offset0 op.maxItems }
+
 def maxPatternLength : Nat := 1000
 
 /-- One action (`doAction`). -/
@@ -161,11 +206,11 @@ def act (op : Opts) (s : TS) : Action → TS
   | .cancel => if s.input.isEmpty then { s with outcome := some .abort } else { s with yanked := s.input, input := [], cx := 0 }
   | .up => vmove op s 1
   | .down => vmove op s (-1)
-  | .first => vset s 0
-  | .last => vset s ((s.results.length : Int) - 1)
+  | .first => constrain op (vset s 0)                                   -- first / last / pos constrain at once
+  | .last => constrain op (vset s ((s.results.length : Int) - 1))
   | .pos n =>
     let n := if n > 0 then n - 1 else if n < 0 then n + s.results.length else n
-    vset s n
+    constrain op (vset s n)
   | .pageUp => pageMove op s true false
   | .pageDown => pageMove op s false false
   | .halfPageUp => pageMove op s true true
@@ -223,51 +268,6 @@ def actStep (op : Opts) (s : TS) (a : Action) : TS :=
   | .toggleIn => toggleMove op s (if op.layout != .default then 1 else -1)
   | .toggleOut => toggleMove op s (if op.layout != .default then -1 else 1)
   | a => act op s a
-
-/-- `constrain()` in single-line mode: clamp the cursor, then keep it inside the window with the
-    scroll-off margin. -/
-def constrain (op : Opts) (s : TS) : TS :=
-  let count : Int := s.results.length
-  let maxLines : Int := op.maxItems
-  let cy := constrainInt s.cy 0 (max 0 (count - 1))
-  let offset0 := constrainInt s.offset 0 count
-  let step (offset : Int) : Int :=
-    let minOffset := max (cy - maxLines + 1) 0
-    let maxOffset := max (min (count - maxLines) cy) 0
-    let offset := constrainInt offset minOffset maxOffset
-    if op.scrollOff > 0 then
-      let so : Int := min (maxLines / 2) op.scrollOff
-      -- phase 0: move the window up while too few lines are shown before the cursor
-      let rec phase0 (o : Int) (fuel : Nat) : Int :=
-        match fuel with
-        | 0 => o
-        | fuel + 1 =>
-          let before := cy - o
-          let after := maxLines - (before + 1)
-          if before < so ∧ after < so then o
-          else if before < so then
-            let o' := max minOffset (o - 1)
-            if o' = o then o else phase0 o' fuel
-          else o
-      let rec phase1 (o : Int) (fuel : Nat) : Int :=
-        match fuel with
-        | 0 => o
-        | fuel + 1 =>
-          let before := cy - o
-          let after := maxLines - (before + 1)
-          if before < so ∧ after < so then o
-          else if after < so then
-            let o' := min maxOffset (o + 1)
-            if o' = o then o else phase1 o' fuel
-          else o
-      phase1 (phase0 offset (op.maxItems + 1)) (op.maxItems + 1)
-    else offset
-  let rec iter (offset : Int) (fuel : Nat) : Int :=
-    match fuel with
-    | 0 => offset
-    | fuel + 1 => let o' := step offset; if o' = offset then offset else iter o' fuel
-  -- the Go loop runs at most maxLines times and compares with the offset before the iteration
-  { s with cy := cy, offset := if op.maxItems = 0 then offset0 else iter offset0 op.maxItems }
 
 /-- `Terminal.UpdateList`: the new result list arrives. With `--track` the cursor follows the item
     it was on (looked up by item number in the new list) and keeps its distance to the top of the
